@@ -56,3 +56,10 @@ Theorem C10_reader_saliences_fit_int64 : forall reals s rs,
   Reader.read_text reals s = Reader.ROk rs -> Forall (fun r => Reader.in_i64 (Syntax.m_sal (Syntax.r_meta r)) = true) rs.
 Proof. exact ReaderFacts.read_text_saliences_in_range. Qed.
 Print Assumptions C10_reader_saliences_fit_int64.
+
+(* the compile MODEL is total: for every text the reader answers accept, reject or outside-the-domain — it never runs out of the
+   fuel its entry points supply (a termination argument: every cycle of its mutually recursive functions consumes a token) *)
+From GV Require Lang.ReaderTotal.
+Theorem C10_reader_model_is_total : forall reals s, Reader.read_text reals s <> Reader.RFuel.
+Proof. exact ReaderTotal.read_text_total. Qed.
+Print Assumptions C10_reader_model_is_total.
